@@ -3,16 +3,27 @@ import itertools
 import random
 
 
-class Cluster:
-    def __init__(self, parts):
-        self.parts = parts          # topic -> number of partitions, or None (no metadata)
+_CLUSTERS = {}
 
-    def partitions_for_topic(self, topic):
-        n = self.parts.get(topic)
-        return None if n is None else set(range(n))
 
-    def topics(self):
-        return set(self.parts)
+def Cluster(parts):
+    """The real aiokafka.cluster.ClusterMetadata, filled from a real MetadataResponse.
+    parts: topic -> number of partitions, or None (the cluster has no metadata for it). A topic whose name starts with
+    '__' is flagged internal in the metadata (like __consumer_offsets): ClusterMetadata.topics() leaves those out,
+    partitions_for_topic() knows them."""
+    key = tuple(sorted((t, -1 if n is None else n) for t, n in parts.items()))
+    c = _CLUSTERS.get(key)
+    if c is None:
+        from aiokafka.cluster import ClusterMetadata
+        from aiokafka.protocol.metadata import MetadataResponse_v1
+        c = ClusterMetadata()
+        topics = [(0, t, t.startswith("__"), [(0, p, 0, [0], [0]) for p in range(n)])
+                  for t, n in sorted(parts.items()) if n is not None]
+        c.update_metadata(MetadataResponse_v1([(0, "h", 9092, None)], 0, topics))
+        if len(_CLUSTERS) > 20000:
+            _CLUSTERS.clear()
+        _CLUSTERS[key] = c
+    return c
 
 
 def assignors():
